@@ -82,7 +82,7 @@ func (c *r1ctx) rootClass(site ssa.CallInstruction) sinkClass {
 	if sc := cc.StaticCallee(); sc != nil {
 		// io.Copy(dst, src) with a library type as dst drives dst.Write - the parsers' push interface - and
 		// hands back whatever that Write returned: the visitor's error enters here
-		if funcPkgPath(sc) == "io" && sc.Name() == "Copy" && len(cc.Args) == 2 {
+		if funcPkgPath(sc) == "io" && core.FuncName(sc) == "Copy" && len(cc.Args) == 2 {
 			if mi, ok := cc.Args[0].(*ssa.MakeInterface); ok {
 				if n := namedOf(mi.X.Type()); n != nil && n.Obj().Pkg() != nil && strings.HasPrefix(n.Obj().Pkg().Path(), core.ModPath) {
 					return clsVisitor
